@@ -217,6 +217,14 @@ pub fn verif_cache_snapshot() -> Vec<(String, Vec<f64>)> {
   l
 }
 
+/// the decoded leap-month table: (leap month number, years), sorted by month number
+#[cfg(tyme4rs_verif)]
+pub fn verif_leap_lists() -> Vec<(usize, Vec<isize>)> {
+  let mut l: Vec<(usize, Vec<isize>)> = LEAP_MONTH_YEAR.iter().map(|(k, v)| (*k, v.clone())).collect();
+  l.sort_by(|a, b| a.0.cmp(&b.0));
+  l
+}
+
 #[cfg(all(tyme4rs_verif, not(tyme4rs_verif_loom)))]
 pub fn verif_poisoned() -> [bool; 2] {
   [LUNAR_MONTH_CACHE.is_poisoned(), EIGHT_CHAR_PROVIDER.is_poisoned()]
